@@ -583,7 +583,7 @@ func (h *H) runChurn() {
 	}
 	n, nmini, nrandom := 4, 4, 6
 	if h.tier == "thorough" {
-		n, nmini, nrandom = 40, 20, 25
+		n, nmini, nrandom = 60, 20, 10
 	}
 	modes := []int{ModePass, ModeStraddle, ModeRand, ModeOne, ModeCoalesce, ModeHdrSplit, Mode64K}
 	for i := 0; i < n+nmini && !w.failed; i++ {
